@@ -73,6 +73,20 @@ HARNESSES = [
        scenarios=[{'K0': 0, 'K1': 1, 'N0': 1}, {'K0': 1, 'K1': 0, 'N0': 2}, {'K0': 1, 'K1': 1, 'N0': 1}, {'K0': 0, 'K1': 0, 'N0': 0}],
        desc='full real code, 2 threads x 1 operation (K: 0 push(p), 1 try_pop) on a queue holding N0 elements; priorities symbolic in {0,1,2}; oracles: no lost operation (blocked-state), history linearizable as a priority queue, final contents = initial + pushed - popped, heap invariant, mark==size==my_size, aggregator idle',
        bounds={'threads': 2, 'ops_per_thread': 1, 'free_rounds': 1, 'forced_rounds': 2, 'loop_unroll': 1, 'priorities': '3 values', 'initial elements': '0..2'}),
+  # hand-over of a pop result to a WAITING popper (result written, then status published). Schedule skeleton "greedy waiters":
+  # thread a (the handler: its operation is enqueued first) is preempted at ROUNDS solver-chosen points, after each of which every
+  # other thread runs as far as it can; enqueue order a,b(,c) assumed (one batch, handled by a, newest first). Priorities concrete.
+  # The witness additionally requires the pop to return WANT_VAL, which under that batch order pins the code path (see desc).
+  dict(name='handover_2t', unit='one2', harness='h_cpq.c', timeout=900, cbmc=LCS_CBMC, native_cflags=NATF,
+       defines={'NT': 2, 'SKEL': None, 'NOQUIESCE': None, 'FORCED1': None, 'CONC': None, 'DOM': 4, 'WANT_ORDER': None, 'ROUNDS': 3, 'K0': 0, 'K1': 1, 'WANT_POP': 1},
+       scenarios=[dict(N0=1, IV0=1, PV0=3, WANT_VAL=3), dict(N0=2, IV0=2, IV1=1, PV0=3, WANT_VAL=3), dict(N0=1, IV0=2, PV0=1, WANT_VAL=2)],
+       desc='batch {pop by waiter b (newer), push by handler a}: the pop is postponed to the second pass; pushed > top: served from the back element (second-pass shortcut, WANT_VAL = pushed value); pushed < top: served from the top + reheap (WANT_VAL = old top). Oracles as lin_2t plus: try_pop must not return true before its output is written (output preset to -1, read by the caller right after the call, checked at once)',
+       bounds={'threads': 2, 'schedule': 'handler preempted at 3 free points, waiter greedy, + 1 forced round', 'loop_unroll': 1, 'priorities': 'concrete: {1}+push 3, {2,1}+push 3, {2}+push 1'}),
+  dict(name='handover_3t', unit='one3', harness='h_cpq.c', timeout=900, cbmc=LCS_CBMC, native_cflags=NATF,
+       defines={'NT': 3, 'SKEL': None, 'NOQUIESCE': None, 'FORCED1': None, 'CONC': None, 'DOM': 4, 'WANT_ORDER': None, 'ROUNDS': 3, 'K1': 1, 'K2': 0, 'WANT_POP': 1, 'WANT_VAL': 3, 'PV2': 3},
+       scenarios=[dict(K0=0, PV0=2, N0=1, IV0=1), dict(K0=0, PV0=1, N0=2, IV0=2, IV1=1), dict(K0=1, N0=1, IV0=1)],
+       desc='batch {push 3 by c (newest), pop by waiter b, operation of handler a (oldest)}: the pop is met in the FIRST pass right after the higher push and is served from the just-pushed back element (first-pass shortcut) although the popper is not the handler; same oracles. (With two threads this path cannot have a waiting popper: the list is processed newest first and the handler owns the oldest operation.)',
+       bounds={'threads': 3, 'schedule': 'handler preempted at 3 free points, both waiters greedy, + 1 forced round', 'loop_unroll': 1, 'priorities': 'concrete: {1} | {2,1}, push 3, handler pushes 2 | pops'}),
   dict(name='lin_2t_deep', unit='one2k2', harness='h_cpq.c', timeout=3600, cbmc=LCS_CBMC, native_cflags=NATF, tiers=['thorough'], mem_gb=16,
        scenarios=[dict(K0=a, K1=b, N0=n, ROUNDS=r, **q) for (a, b) in [(0, 1), (1, 0), (1, 1), (0, 0)] for n in (0, 1, 2) for (r, q) in [(2, {}), (2, {'NOQUIESCE': None, 'FORCED1': None})]],
        defines={'NT': 2},
@@ -88,7 +102,7 @@ MANIFEST = dict(
 )
 OUTSIDE = [
   'more than 3 threads; more than 1 operation per thread through the full queue code (2 per thread only in the protocol harness agg_*)',
-  'schedules with more scheduling rounds than stated per harness; at loop unroll 1 (quick lin_2t) a context switch after the second iteration of a list loop is only reached in the forced rounds',
+  'schedules outside the stated round bounds / outside the greedy-waiter skeleton of handover_*; at loop unroll 1 (quick lin_2t) a context switch after the second iteration of a list loop is only reached in the forced rounds',
   'std::vector reallocation inside a concurrent operation (queue is constructed with capacity 8; _M_realloc_insert is cut out of the thread bodies and asserted unreachable; growth is exercised sequentially by the selftest differential only)',
   'element types other than int (and the int-wrapper Elem of batch_throw), user comparators, emplace',
   'throwing MOVE constructor/assignment (try_pop move-assigns the result outside any try block: a throwing move there is outside the documented contract and not checked); exceptions inside concurrent threads (batch_throw is sequential: one batch, or one public push)',
